@@ -27,3 +27,19 @@ Theorem C06_reads_concatenate_to_data : forall data ns,
   concat (map fst (spec_reads data ns)) = firstn (N.to_nat (fold_right N.add 0 ns)) data.
 Proof. intros data ns. exact (spec_reads_concat ns data). Qed.
 Print Assumptions C06_reads_concatenate_to_data.
+
+(* source side: the bit stream returns the same values whatever sizes the underlying io.Reader
+   delivers (any schedule, down to one byte per call) and whatever the buffer size; they are the
+   next bits of the byte string; a read past the end raises *)
+From KV Require Import Model.OutBS Model.InBS Proofs.BinCoderProofs Proofs.InBSProofs.
+Theorem C06_short_reads_of_the_source_are_invisible : forall bufsize1 bufsize2 sched1 sched2 data ops,
+  (0 < bufsize1)%N -> (0 < bufsize2)%N -> bytes_ok data -> Forall rop_ok ops ->
+  run_rops (new_ibs bufsize1 (mkSrc data sched1 None 0)) ops = run_rops (new_ibs bufsize2 (mkSrc data sched2 None 0)) ops /\
+  run_rops (new_ibs bufsize1 (mkSrc data sched1 None 0)) ops = spec_rops (be_val data) (8 * N.of_nat (length data)) ops.
+Proof. exact reader_schedule_independent. Qed.
+Print Assumptions C06_short_reads_of_the_source_are_invisible.
+
+Example C06_source_instance :
+  run_rops (new_ibs 8 (mkSrc [165; 90; 255; 1; 2; 3; 4; 5; 6; 7]%N [1; 2; 1; 3; 1; 1; 1]%N None 0)) [RBits 4; RBit; RBits 11; RBits 64; RBits 1]%N =
+  [Some 10; Some 0; Some 1370; Some 18374970166623929863; None]%N.
+Proof. vm_compute. reflexivity. Qed.
